@@ -30,7 +30,9 @@ RULE = ("cases = base circuit (1-qubit unitary / with global phase / parameteriz
         "use_repetition_ids; repetition_ids; qubit_map; measurement_key_map; parent_path; param_resolver; repeat_until) "
         "x nesting depth (1..2, thorough 3, through body templates: alone / after a measurement / followed by a control) "
         "x constructor paths x context circuits; invalid option mixes must raise ValueError/TypeError and are counted as "
-        "skipped; a case is non-trivial when the flat program has >=2 leaf operations (simulation stages: >=2 records); "
+        "skipped; simulation cases are those of the reduced product whose flat program executes <=5 (thorough <=7) "
+        "measurements, loop cases those with <=100 (thorough <=600) estimated PRNG paths within the 3-iteration draw budget; "
+        "a case is non-trivial when the flat program has >=2 leaf operations (simulation stages: >=2 records); "
         "distinct = distinct descriptor")
 TECHNIQUE = ("bounded-exhaustive enumeration of CircuitOperation configurations against an independent reference unroller; "
              "stateless DFS over ALL scripted-PRNG answer paths of the real simulators for the record distributions")
@@ -565,12 +567,22 @@ def check_static(make, spec, label):
         if nested_key_collision(circuit, spec.key_map):
             raise Rejected()  # a nested operation rejects the (colliding) key map: documented ValueError
     symbolic = isinstance(spec.repetitions, sympy.Basic)
-    if symbolic:
-        items = U.single_iteration(spec)
-        zero = False
-    else:
-        items = U.unroll_spec(spec)
-        zero = int(spec.repetitions) == 0
+    try:
+        if symbolic:
+            items = U.single_iteration(spec)
+            zero = False
+        else:
+            items = U.unroll_spec(spec)
+            zero = int(spec.repetitions) == 0
+    except ValueError as e:
+        if "Duplicate qids" not in str(e):
+            raise
+        # the qubit maps of the nesting levels compose to a non-injective map: the documented
+        # "Collision in qubit map composition" ValueError of with_qubit_mapping, raised when the body is mapped
+        x = ans["mapped_circuit_deep"]
+        if x[0] == "raise" and x[1] == "ValueError":
+            raise Rejected()
+        raise Viol(f"{label}: the composed qubit map is not injective ({e}) but mapped_circuit gives {x[0]}\n{op!r}", kind="static", observer="qubit_collision")
     one = U.single_iteration(spec) if zero else items
     lv = U.leaves(items)
     loop = U.has_loop(items)
